@@ -102,10 +102,14 @@ class Contracts(Generic[F]):
         contracts.raises.extend(self.raises)
         contracts.reasons.extend(self.reasons)
         if self.patcher is not None:
-            if contracts.patcher is not None:
-                contracts.patcher.markers |= self.patcher.markers
-            else:
-                contracts.patcher = self.patcher
+            # The patcher can be shared with other functions (the same `deal.has`
+            # applied more than once, a base class method). Never modify or reuse it.
+            origin = contracts.patcher or self.patcher
+            contracts.patcher = type(origin)(
+                markers=origin.markers | self.patcher.markers,
+                message=origin.message,
+                exception=origin.exception,
+            )
         return contracts.wrapped
 
     def _run_sync(self, args: tuple[object, ...], kwargs: dict[str, object]):
